@@ -9,6 +9,7 @@ usage: seedcheck.py <name> <workdir with patch.diff demo.py meta.json> <property
 4. `check.py <ID> --quick` is run with VERIF_REPO=<worktree>: caught = exit 1 with a VIOLATION line;
 5. everything is recorded in /verif/seeded/<name>/ (patch.diff, demo.py, meta.json); the worktree is removed.
 """
+import fcntl
 import json
 import os
 import shutil
@@ -95,4 +96,7 @@ def main():
 
 
 if __name__ == '__main__':
+    # one run per property at a time (the generated facts of a property are shared)
+    _lk = open('/tmp/verif_prop_%s.lock' % sys.argv[3], 'w')
+    fcntl.flock(_lk, fcntl.LOCK_EX)
     sys.exit(main())
